@@ -90,4 +90,12 @@ func init() {
 			c.Exhaustive = true
 		},
 	})
+	register(&PropertyDef{
+		ID: "C16", Level: "proof",
+		Explanation: "E3 effect/ownership analysis.",
+		Run: func(p *Program, c *Check) {
+			ea := p.ruleEffects(c, false, false)
+			p.ruleAccelTables(c, ea)
+		},
+	})
 }
